@@ -1376,7 +1376,7 @@ func c11Directed(seed int64, emit c11Emit) {
 // (a Subset may list all 432 000 slots of an epoch). Run last: 131 072 is the default element limit of
 // the CBOR library under the fast decoders.
 func c11Huge(seed int64, emit c11Emit) {
-	for kind := 0; kind < 7; kind++ {
+	for _, kind := range []int{3, 4, 1, 2, 0, 5, 6} { // Subset first: the one list that can get this long in a real epoch
 		for _, s := range c11ListSlots(kind) {
 			lens := []int{131072, 131073}
 			if ev.Thorough() {
